@@ -8,5 +8,8 @@ CONSTANTS
   Interleave = TRUE
   Cfgs <- MCCfgsFork0
   OraclesFor <- MCOraclesA
-INVARIANTS TypeOK JobTimeRight JobCoversExactly NoSlotTwice OneJobPerDutySlot OnlyStrictlyLaterOnStart SyncWindowRight EpochTickOnce NoFutureDutyUnscheduled NoStaleJob ReorgActedOn
+  MaxAccts = 0
+  AnswersFor <- AllAnswers
+  Deviation = {}
+INVARIANTS TypeOK JobTimeRight JobCoversExactly NoSlotTwice OneJobPerDutySlot OnlyStrictlyLaterOnStart SyncWindowRight EpochTickOnce NoFutureDutyUnscheduled NoStaleJob ReorgActedOn RefreshCompletes
 CHECK_DEADLOCK FALSE
